@@ -297,6 +297,19 @@ def run(ctx):
     for fname, c in load_corpus("C17"):
         one(c["doc"], "corpus:" + fname)
     readers = [AmplitudeChain, GooFitChain, GooFitPyChain]
+    # the event-type mother written in one accepted spelling on the EventType line and in another on (some of) its decay lines:
+    # a line belongs to the mother when it names the same PARTICLE; and the option texts of other event-type families
+    for mo_ev, mo_lines in (("omega(782)", ["omega(782)0", "omega(782)0"]), ("omega(782)0", ["omega(782)", "omega(782)0"]),
+                            ("phi(1020)0", ["phi(1020)", "phi(1020)0"]), ("eta", ["eta0", "eta"])):
+        doc = [["event_type", [mo_ev, "pi+", "pi-", "pi0"]]]
+        for nm in mo_lines:
+            doc.append(["line", ["D", nm, None, None, [A.two_body(rng, "rho(770)0", tag=False), ["D", "pi0", None, None, []]]]] + A.coupling(rng))
+        doc.append(["line", ["D", mo_ev, rng.choice([None, "P"]), None, [["D", "rho(770)0", None, None, []], ["D", "pi0", None, None, []]]]] + A.coupling(rng))
+        doc.append(["line", A.two_body(rng, "rho(770)0", tag=False)] + A.coupling(rng))
+        for k, rd in enumerate(readers):
+            one(doc, "mother-spellings", rd)
+    for doc, ev in A.other_family_docs():
+        one(doc, "other-families", readers[len(ev) % 3])
     for i in range(n_docs):
         doc, ev = A.gen_amp_doc(rng)
         one(doc, "generated", readers[i % 3])
